@@ -611,9 +611,9 @@ func (w *w4) judgeMetadata(id int, q *w4req, resp *kmsg.MetadataResponse, invoke
 				w.sim.Fail("C28", "leader-not-proxy", "metadata v%d: %s/%d has leader %d", v, strp(t.Topic), p.Partition, p.Leader)
 				return
 			}
-			for _, x := range append(append([]int32(nil), p.Replicas...), p.ISR...) {
+			for _, x := range append(append(append([]int32(nil), p.Replicas...), p.ISR...), p.OfflineReplicas...) {
 				if x != 0 {
-					w.sim.Fail("C28", "leader-not-proxy", "metadata v%d: %s/%d lists replica/ISR node %d", v, strp(t.Topic), p.Partition, x)
+					w.sim.Fail("C28", "leader-not-proxy", "metadata v%d: %s/%d lists replica/ISR/offline-replica node %d (the only broker the reply names is node 0, the proxy)", v, strp(t.Topic), p.Partition, x)
 					return
 				}
 			}
